@@ -110,8 +110,9 @@ def path_padding(inpath, start, target_object):
     # scalar or vector input
     scalar_input = inpath.ndim == 1
 
-    # load old path
-    ppath = target_object._position
+    # load old path (a copy: the stored array is never modified in place, views handed
+    # out by the `position` getter - possibly used as input of this very call - stay valid)
+    ppath = target_object._position.copy()
     opath = target_object._orientation.as_quat()
 
     lenip = 1 if scalar_input else len(inpath)
